@@ -299,3 +299,8 @@ def run(ctx, eng):
            'returns the value of :method as bytes', node=f6.node)
     ctx.assume('sums over DATA chunkings are not decided (the accumulator\'s '
                'form is)')
+    cm.include(ctx, eng, 'C18',
+               lambda o: o.rule == 'TAB.raise-class' and
+               isinstance(o.where, str) and 'content_length' in o.where,
+               'a length mismatch is a PROTOCOL_ERROR: the class of the '
+               'refusal carries the code')
